@@ -1,5 +1,5 @@
-"""Shared by C06 / C15 / C19: dataset generator (arrays, structures, grids, flat sequences; integer-valued
-data), its S-expression for the Lean model, the real pydap dataset, structured constraint generator (valid
+"""Shared by C06 / C15 / C19: dataset generator (arrays, structures - also one structure nested in a structure -,
+grids, flat sequences; integer-valued numeric data and ASCII strings), its S-expression for the Lean model, the real pydap dataset, structured constraint generator (valid
 CEs with the numpy-computed expectation), fault injection, a request runner on webob, and small independent
 parsers for DDS text, ASCII bodies and the XDR payload of `.dods`."""
 import re
@@ -12,7 +12,9 @@ from common import hexb
 
 warnings.filterwarnings("ignore")
 
-DTYPES = {"i4": "Int32", "i2": "Int16", "u2": "UInt16", "u4": "UInt32", "f4": "Float32", "f8": "Float64"}
+DTYPES = {"i4": "Int32", "i2": "Int16", "u2": "UInt16", "u4": "UInt32", "f4": "Float32", "f8": "Float64", "U": "String"}
+NUMERIC = [k for k in DTYPES if k != "U"]
+STR_ALPHABET = "abcxyz019 _.-"     # no comma / quote / newline: the harness's ASCII reader splits sequence rows on ", "
 
 
 def hx(s):
@@ -20,14 +22,33 @@ def hx(s):
 
 
 # ------------------------------------------------------------------------------------------------ datasets
+def gen_string(rng):
+    return "".join(rng.choice(STR_ALPHABET) for _ in range(rng.choice([0, 1, 1, 2, 3, 3, 4, 5, 8]))) if rng.random() < 0.8 \
+        else rng.choice(["a", "ab", "b", "", "abc"])
+
+
+def np_dtype(dt):
+    return "U8" if dt == "U" else dt
+
+
+def val_sexp(v):
+    return hx(v) if isinstance(v, str) else str(v)
+
+
 def gen_values(rng, dt, n):
+    if dt == "U":
+        return [gen_string(rng) for _ in range(n)]
     lo, hi = (0, 9999) if dt[0] == "u" else (-9999, 9999)
     return [rng.choice([0, 1, lo, hi, rng.randint(lo, hi), rng.randint(-9, 9) if lo < 0 else rng.randint(0, 9)])
             for _ in range(n)]
 
 
-def gen_base(rng, name, max_rank=3, rank=None, dims=None):
-    dt = rng.choice(list(DTYPES))
+def gen_dtype(rng, strings=True):
+    return "U" if strings and rng.random() < 0.2 else rng.choice(NUMERIC)
+
+
+def gen_base(rng, name, max_rank=3, rank=None, dims=None, strings=True):
+    dt = gen_dtype(rng, strings)
     if rank is None:
         rank = rng.choice([0, 1, 1, 2, 2, 3][: 2 + 2 * max_rank]) if max_rank else 0
         rank = min(rank, max_rank)
@@ -38,31 +59,36 @@ def gen_base(rng, name, max_rank=3, rank=None, dims=None):
     return {"k": "b", "name": name, "dt": dt, "shape": shape, "dims": dims or [], "data": gen_values(rng, dt, n)}
 
 
-def gen_dataset(rng, with_seq=True, ambiguous=False):
-    """spec: {"name", "vars": [...]}"""
+def gen_dataset(rng, with_seq=True, ambiguous=False, strings=True, nested=True):
+    """spec: {"name", "vars": [...]}; `strings`: String arrays / scalars / columns; `nested`: a structure member of the
+    structure (one level)"""
     vars_ = []
     top = ["a", "b", "c"]
     rng.shuffle(top)
     for nm in top[: rng.randint(1, 3)]:
-        vars_.append(gen_base(rng, nm))
+        vars_.append(gen_base(rng, nm, strings=strings))
     if rng.random() < 0.8:
-        ms = [gen_base(rng, nm, max_rank=2) for nm in ["p", "q", "r"][: rng.randint(1, 3)]]
+        ms = [gen_base(rng, nm, max_rank=2, strings=strings) for nm in ["p", "q", "r"][: rng.randint(1, 3)]]
+        if nested and rng.random() < 0.5:
+            inner = [gen_base(rng, nm, max_rank=2, strings=strings) for nm in ["e", "h", "r" if ambiguous else "k"][: rng.randint(1, 3)]]
+            ms.insert(rng.randint(0, len(ms)), {"k": "st", "name": "in", "members": inner})
         vars_.append({"k": "st", "name": "st", "members": ms})
     if rng.random() < 0.8:
         rank = rng.randint(1, 3)
-        arr = gen_base(rng, "v", rank=rank, dims=["x", "y", "z"][:rank])
+        arr = gen_base(rng, "v", rank=rank, dims=["x", "y", "z"][:rank], strings=strings)
         maps = []
         for d, n in zip(arr["dims"], arr["shape"]):
-            m = gen_base(rng, d, rank=1, dims=[d])
+            m = gen_base(rng, d, rank=1, dims=[d], strings=False)
             m["shape"] = [n]
             m["data"] = sorted(gen_values(rng, m["dt"], n))
             maps.append(m)
         vars_.append({"k": "g", "name": "g", "array": arr, "maps": maps})
     if with_seq and rng.random() < 0.85:
-        cols = [(nm, rng.choice(list(DTYPES))) for nm in ["i", "j", "f"][: rng.randint(1, 3)]]
+        cols = [(nm, gen_dtype(rng, strings)) for nm in ["i", "j", "f"][: rng.randint(1, 3)]]
         if ambiguous and rng.random() < 0.5:
             cols.append(("p", "i4"))
-        rows = [[gen_values(rng, dt, 1)[0] % 50 if rng.random() < 0.7 else gen_values(rng, dt, 1)[0] for (_, dt) in cols]
+        rows = [[gen_values(rng, dt, 1)[0] if dt == "U" else
+                 gen_values(rng, dt, 1)[0] % 50 if rng.random() < 0.7 else gen_values(rng, dt, 1)[0] for (_, dt) in cols]
                 for _ in range(rng.choice([1, 2, 3, 5, 8]))]
         vars_.append({"k": "sq", "name": "s", "cols": cols, "rows": rows})
     rng.shuffle(vars_)
@@ -71,22 +97,33 @@ def gen_dataset(rng, with_seq=True, ambiguous=False):
 
 def base_sexp(b):
     return "(b %s %s (%s) (%s) (%s))" % (hx(b["name"]), hx(DTYPES[b["dt"]]), " ".join(map(str, b["shape"])),
-                                         " ".join(hx(d) for d in b["dims"]), " ".join(map(str, b["data"])))
+                                         " ".join(hx(d) for d in b["dims"]), " ".join(map(val_sexp, b["data"])))
+
+
+def member_sexp(m):
+    if m["k"] == "st":
+        return "(st %s (%s))" % (hx(m["name"]), " ".join(base_sexp(b) for b in m["members"]))
+    return base_sexp(m)
 
 
 def var_sexp(v):
     if v["k"] == "b":
         return base_sexp(v)
     if v["k"] == "st":
-        return "(st %s (%s))" % (hx(v["name"]), " ".join(base_sexp(m) for m in v["members"]))
+        return "(st %s (%s))" % (hx(v["name"]), " ".join(member_sexp(m) for m in v["members"]))
     if v["k"] == "g":
         return "(g %s %s (%s))" % (hx(v["name"]), base_sexp(v["array"]), " ".join(base_sexp(m) for m in v["maps"]))
     return "(sq %s (%s) (%s))" % (hx(v["name"]), " ".join("(%s %s)" % (hx(n), hx(DTYPES[t])) for n, t in v["cols"]),
-                                  " ".join("(%s)" % " ".join(map(str, r)) for r in v["rows"]))
+                                  " ".join("(%s)" % " ".join(map(val_sexp, r)) for r in v["rows"]))
 
 
 def ds_sexp(spec):
     return "(ds %s (%s))" % (hx(spec["name"]), " ".join(var_sexp(v) for v in spec["vars"]))
+
+
+def as_array(b):
+    dt = np_dtype(b["dt"])
+    return np.array(b["data"], dtype=dt).reshape(b["shape"]) if b["shape"] else np.array(b["data"][0], dtype=dt)
 
 
 def build(spec, lazy=False):
@@ -95,7 +132,7 @@ def build(spec, lazy=False):
     from pydap.model import BaseType, DatasetType, GridType, SequenceType, StructureType
 
     def mk(b):
-        data = np.array(b["data"], dtype=b["dt"]).reshape(b["shape"]) if b["shape"] else np.array(b["data"][0], dtype=b["dt"])
+        data = as_array(b)
         return BaseType(b["name"], data, dims=tuple(b["dims"])) if b["dims"] else BaseType(b["name"], data)
 
     ds = DatasetType(spec["name"])
@@ -105,7 +142,13 @@ def build(spec, lazy=False):
         elif v["k"] == "st":
             st = StructureType(v["name"])
             for m in v["members"]:
-                st[m["name"]] = mk(m)
+                if m["k"] == "st":
+                    inner = StructureType(m["name"])
+                    for b in m["members"]:
+                        inner[b["name"]] = mk(b)
+                    st[m["name"]] = inner
+                else:
+                    st[m["name"]] = mk(m)
             ds[v["name"]] = st
         elif v["k"] == "g":
             g = GridType(v["name"])
@@ -119,23 +162,26 @@ def build(spec, lazy=False):
                 s[n] = BaseType(n)
             if lazy and v["rows"]:
                 from pydap.handlers.lib import IterData
-                typed = [tuple(np.dtype(t).type(x) for x, (n, t) in zip(r, v["cols"])) for r in v["rows"]]
+                typed = [tuple(np.dtype(np_dtype(t)).type(x) for x, (n, t) in zip(r, v["cols"])) for r in v["rows"]]
                 # lazy == "ranged": the stream already carries a record range (IterData applies slices after filters,
                 # so such a dataset is only asked selection-free constraints)
                 s.data = IterData([typed[0]] + typed, s)[1:] if lazy == "ranged" else IterData(typed, s)
             else:
-                s.data = np.array([tuple(r) for r in v["rows"]], dtype=[(n, t) for n, t in v["cols"]]).view(np.recarray)
+                s.data = np.array([tuple(r) for r in v["rows"]], dtype=[(n, np_dtype(t)) for n, t in v["cols"]]).view(np.recarray)
             ds[v["name"]] = s
     return ds
 
 
 # ------------------------------------------------------------------------------------------------ valid CEs
 def gen_hs(rng, shape):
-    """valid hyperslab for every axis: text and the python slices"""
+    """valid hyperslab: text and the python slices.  Valid = what check_hyperslab accepts: at most one index per axis
+    (axes not mentioned are whole), start inside the axis, last index >= start (a last index beyond the extent is
+    clipped, as the client sends it), stride >= 1"""
     text, sl = "", []
-    for n in shape:
+    axes = shape if rng.random() < 0.85 else shape[: rng.randint(1, len(shape))]
+    for n in axes:
         a = rng.randint(0, n - 1)
-        b = rng.randint(a, n - 1)
+        b = rng.randint(a, n - 1) if rng.random() < 0.85 else rng.choice([n, n + 1, 99])
         k = rng.choice([1, 1, 2, 3])
         form = rng.randint(0, 2)
         if form == 0:
@@ -151,10 +197,11 @@ def gen_hs(rng, shape):
 
 
 def leaf(idpath, b, sl=None):
-    arr = np.array(b["data"], dtype=b["dt"]).reshape(b["shape"]) if b["shape"] else np.array(b["data"][0], dtype=b["dt"])
+    arr = as_array(b)
     if sl:
         arr = arr[sl]
-    return {"id": ".".join(idpath), "type": DTYPES[b["dt"]], "shape": list(arr.shape), "values": [int(x) for x in arr.reshape(-1)]}
+    return {"id": ".".join(idpath), "type": DTYPES[b["dt"]], "shape": list(arr.shape),
+            "values": [str(x) if b["dt"] == "U" else int(x) for x in arr.reshape(-1)]}
 
 
 def gen_valid_ce(rng, spec, allow_sel=True):
@@ -165,6 +212,9 @@ def gen_valid_ce(rng, spec, allow_sel=True):
     for v in spec["vars"]:
         if v["k"] == "st":
             member_names += [m["name"] for m in v["members"]]
+            for m in v["members"]:
+                if m["k"] == "st":
+                    member_names += [b["name"] for b in m["members"]]
         elif v["k"] == "g":
             member_names += [v["array"]["name"]] + [m["name"] for m in v["maps"]]
         elif v["k"] == "sq":
@@ -185,12 +235,20 @@ def gen_valid_ce(rng, spec, allow_sel=True):
             for _ in range(rng.randint(1, 2)):
                 ci = rng.randrange(len(v["cols"]))
                 op = rng.choice(["<", "<=", ">", ">=", "=", "!="])
-                if rng.random() < 0.8 or len(v["cols"]) < 2:
-                    rhs = rng.choice([0, 1, 5, 20, 49, -3, rng.randint(-60, 60)])
+                is_str = v["cols"][ci][1] == "U"
+                like = [j for j, c in enumerate(v["cols"]) if (c[1] == "U") == is_str]
+                if rng.random() < 0.8 or len(like) < 2:
+                    if is_str:
+                        # a double-quoted literal; only characters that travel unescaped in a query string
+                        pool = [r_[ci] for r_ in v["rows"] if re.fullmatch(r"[a-z0-9_.\-]*", r_[ci])] + ["a", "b", "", "abc", "x1"]
+                        rhs = rng.choice(pool)
+                        sel_txt.append('%s.%s%s"%s"' % (v["name"], v["cols"][ci][0], op, rhs))
+                    else:
+                        rhs = rng.choice([0, 1, 5, 20, 49, -3, rng.randint(-60, 60)])
+                        sel_txt.append("%s.%s%s%d" % (v["name"], v["cols"][ci][0], op, rhs))
                     conds.append((ci, op, ("lit", rhs)))
-                    sel_txt.append("%s.%s%s%d" % (v["name"], v["cols"][ci][0], op, rhs))
                 else:
-                    cj = rng.randrange(len(v["cols"]))
+                    cj = rng.choice(like)
                     conds.append((ci, op, ("col", cj)))
                     sel_txt.append("%s.%s%s%s.%s" % (v["name"], v["cols"][ci][0], op, v["name"], v["cols"][cj][0]))
             seqsel[v["name"]] = conds
@@ -203,11 +261,16 @@ def gen_valid_ce(rng, spec, allow_sel=True):
             rows = [r for r in rows if ops[op](r[ci], rhs[1] if rhs[0] == "lit" else r[rhs[1]])]
         return rows
 
+    def full_member(parent, m):
+        if m["k"] == "st":
+            return ("st", parent + "." + m["name"], [leaf([parent, m["name"], b["name"]], b) for b in m["members"]])
+        return leaf([parent, m["name"]], m)
+
     def full(v):
         if v["k"] == "b":
             return ("b", leaf([v["name"]], v))
         if v["k"] == "st":
-            return ("st", v["name"], [leaf([v["name"], m["name"]], m) for m in v["members"]])
+            return ("st", v["name"], [full_member(v["name"], m) for m in v["members"]])
         if v["k"] == "g":
             return ("g", v["name"], [leaf([v["name"], m["name"]], m) for m in [v["array"]] + v["maps"]])
         return ("sq", v["name"], [(n, DTYPES[t]) for n, t in v["cols"]], rows_of(v))
@@ -230,21 +293,45 @@ def gen_valid_ce(rng, spec, allow_sel=True):
                 items.append(nm)
                 expected.append(full(v))
             else:
-                ms = list(v["members"])
-                rng.shuffle(ms)
-                ms = ms[: rng.randint(1, len(ms))]
+                # references to members, and to members of the nested structure, in any order: a structure appears in
+                # the output where it is first referred to, members are appended to it in the order of the request
+                refs = []          # (path below nm, base or nested structure)
+                for m in v["members"]:
+                    if m["k"] == "st":
+                        if rng.random() < 0.3:
+                            refs.append(([m["name"]], m))
+                        else:
+                            bs = list(m["members"])
+                            rng.shuffle(bs)
+                            refs += [([m["name"], b["name"]], b) for b in bs[: rng.randint(1, len(bs))]]
+                    else:
+                        refs.append(([m["name"]], m))
+                rng.shuffle(refs)
+                refs = refs[: rng.randint(1, len(refs))]
                 leaves = []
-                for m in ms:
-                    short = member_names.count(m["name"]) == 1 and m["name"] not in by_name and m["name"] != spec["name"] \
-                        and len(ms) == 1 and rng.random() < 0.3
-                    ref = m["name"] if short else nm + "." + m["name"]
+                nested_at = {}
+                for path, m in refs:
+                    short = member_names.count(path[-1]) == 1 and path[-1] not in by_name and path[-1] != spec["name"] \
+                        and len(refs) == 1 and rng.random() < 0.3
+                    ref = path[-1] if short else ".".join([nm] + path)
+                    if m["k"] == "st":
+                        items.append(ref)
+                        leaves.append(full_member(nm, m))
+                        continue
                     if m["shape"] and rng.random() < 0.6:
                         t, sl = gen_hs(rng, m["shape"])
                         items.append(ref + t)
-                        leaves.append(leaf([nm, m["name"]], m, sl))
+                        lf = leaf([nm] + path, m, sl)
                     else:
                         items.append(ref)
-                        leaves.append(leaf([nm, m["name"]], m))
+                        lf = leaf([nm] + path, m)
+                    if len(path) == 2:
+                        if path[0] not in nested_at:
+                            nested_at[path[0]] = ("st", nm + "." + path[0], [])
+                            leaves.append(nested_at[path[0]])
+                        nested_at[path[0]][2].append(lf)
+                    else:
+                        leaves.append(lf)
                 expected.append(("st", nm, leaves))
         elif v["k"] == "g":
             if r < 0.3:
@@ -255,7 +342,8 @@ def gen_valid_ce(rng, spec, allow_sel=True):
                 items.append(nm + t)
                 moved.append(nm)
                 expected.append(("g", nm, [leaf([nm, v["array"]["name"]], v["array"], sl)]
-                                 + [leaf([nm, m["name"]], m, (s,)) for m, s in zip(v["maps"], sl)]))
+                                 + [leaf([nm, m["name"]], m, (s,)) for m, s in zip(v["maps"], sl)]
+                                 + [leaf([nm, m["name"]], m) for m in v["maps"][len(sl):]]))
             else:
                 ms = [v["array"]] + v["maps"]
                 m = rng.choice(ms)
@@ -303,7 +391,9 @@ def expected_decl(expected):
         if e[0] == "b":
             out.append(("b", e[1]["id"], e[1]["type"], tuple(e[1]["shape"])))
         elif e[0] in ("st", "g"):
-            out.append((e[0], e[1], tuple((l["id"], l["type"], tuple(l["shape"])) for l in e[2])))
+            out.append((e[0], e[1], tuple(
+                ("st", l[1], tuple((x["id"], x["type"], tuple(x["shape"])) for x in l[2])) if isinstance(l, tuple)
+                else (l["id"], l["type"], tuple(l["shape"])) for l in e[2])))
         else:
             out.append(("sq", e[1], tuple(("%s.%s" % (e[1], n), t, ()) for n, t in e[2])))
     return out
@@ -316,7 +406,11 @@ def expected_values(expected):
             out += e[1]["values"]
         elif e[0] in ("st", "g"):
             for l in e[2]:
-                out += l["values"]
+                if isinstance(l, tuple):
+                    for x in l[2]:
+                        out += x["values"]
+                else:
+                    out += l["values"]
         else:
             for r in e[3]:
                 out += list(r)
@@ -325,7 +419,12 @@ def expected_values(expected):
 
 # ------------------------------------------------------------------------------------------------ faults
 FAULT_KINDS = ["unknown-var", "non-numeric", "over-long", "negative", "inverted", "out-of-range", "unbalanced",
-               "unknown-function", "operand-type", "bad-operator", "percent", "dap4", "byte-mutation", "too-many-index"]
+               "unknown-function", "operand-type", "operand-not-literal", "bad-operator", "function+fault", "nested-path",
+               "percent", "dap4", "byte-mutation", "too-many-index"]
+
+# operands that are not Python literals: ast.literal_eval raises SyntaxError (not ValueError) on most of them
+NOT_LITERALS = ["(", ")", "1%202", "=5", ">5", "<1", "[", "]", "'", '"', "1+", "0x", "1e", "--", "1,2", "()", "[1,2", "{", "*",
+                "1..2", "09", "1_", "lambda:1", "a%20b", "'x", "\\", "@", "$", "?", ";", "1;2", ":", "...", "1if", "not", "-"]
 
 
 def inject_fault(rng, spec, q, kind):
@@ -369,6 +468,32 @@ def inject_fault(rng, spec, q, kind):
     if kind == "unknown-function":
         return rng.choice([with_item("foo(" + a + ")"), with_sel("foo(" + sc + ")>1"), with_item("(" + a + ")"), with_item("("),
                            with_item("mean()"), with_item("bar(1,2)"), with_sel("nofun(1)")])
+    if kind == "operand-not-literal":
+        # `s.i>(`, `s.i>1 2`, `s.i==5` (operand `=5`), `s.i<>5` (operand `>5`), also beside a good clause
+        lit = rng.choice(NOT_LITERALS)
+        op = rng.choice([">", "<", "=", "!=", ">=", "<="])
+        return with_sel(sc + op + lit) if rng.random() < 0.8 else with_sel(sc + op + "1") + "&" + sc + op + lit
+    if kind == "function+fault":
+        # a function call (projection or selection position) combined with a faulty clause or a faulty argument
+        call = rng.choice(["mean(%s,0)" % a, "mean(%s)" % a, "mean(g,0)", "bounds(0,1,0,1,0,1)", "foo(%s)" % a, "mean(mean(%s,0),0)" % a])
+        faulty_sel = sc + rng.choice(["><1", ">(", "==5", "<>5", ">1%202", ">abc", "=~1", ">", '>"x"', ">>1"])
+        faulty_item = rng.choice([a + "[x]", a + "[1:2:3:4]", "zz", a + "[99]", a + "[1", "st.zz", a + "[-1]"])
+        faulty_arg = rng.choice(["mean(%s[x],0)" % a, "mean(%s[99],0)" % a, "mean(zz,0)", "mean(%s,9)" % a, "mean(%s,x)" % a, "mean(%s,0" % a,
+                                 "mean(,)", "mean((,0)", "mean(%s,0)(1)" % a, "bounds(0,1,0,1)", "bounds(a,b,c,d,e,f)", "mean(%s,0)[0]" % a])
+        r = rng.random()
+        if r < 0.3:
+            return call + "&" + faulty_sel
+        if r < 0.5:
+            return ",".join(rng.sample([call, faulty_item], 2))
+        if r < 0.7:
+            return faulty_arg + rng.choice(["", "&" + faulty_sel, "," + a])
+        if r < 0.85:
+            return sn + "&" + call + "&" + faulty_sel
+        return call + "," + faulty_item + "&" + faulty_sel
+    if kind == "nested-path":
+        # paths through the nested structure that do not exist / slice a structure / go through a base variable
+        return with_item(rng.choice(["st.in.zz", "st.in[0]", "st[0].in", "st.in.e.x", "st.zz.e", "in.zz", "st.in.e[9][9][9]", "st.in[0].e",
+                                     "st.p.e", "in[0]", "st.in.", "st..e", "st.in.e[99]", "g.v.x", "s.i.j", "st.in.h[0:1:0]", "zz.in.e"]))
     if kind == "operand-type":
         return with_sel(sc + rng.choice(['>"x"', ">abc", ">1.5", "=" + a, ">", "=[1]", "<" + sn, '="1"', ">None", ">1e400"]))
     if kind == "bad-operator":
@@ -460,12 +585,12 @@ DDS_BASE = re.compile(r"^\s*(Byte|Int16|UInt16|Int32|UInt32|Float32|Float64|Stri
 
 
 def parse_dds(text):
-    """harness's own DDS reader: returns (dataset name, entries, rest-of-text) where entries mirror expected_decl"""
+    """harness's own DDS reader: returns (dataset name, entries, rest-of-text) where entries mirror expected_decl:
+    ("b", id, type, shape) | (kind, name, members) with member = (id, type, shape) | ("st", id, (bases...))"""
     lines = text.split("\n")
     if lines[0] != "Dataset {":
         raise ValueError("no Dataset line: %r" % lines[0])
-    i = 1
-    out = []
+    pos = [1]
 
     def base(line, prefix):
         m = DDS_BASE.match(line)
@@ -474,32 +599,48 @@ def parse_dds(text):
         shape = tuple(int(x.split("=")[-1].strip()) for x in re.findall(r"\[([^\]]*)\]", m.group(3)))
         return (prefix + m.group(2), m.group(1), shape)
 
-    while True:
-        line = lines[i]
-        s = line.strip()
-        if s.startswith("} ") and not line.startswith(" "):
-            name = s[2:-1]
-            rest = "\n".join(lines[i + 1:])
-            return name, out, rest
-        if s in ("Structure {", "Sequence {", "Grid {"):
-            kind = {"Structure {": "st", "Sequence {": "sq", "Grid {": "g"}[s]
-            j = i + 1
-            body = []
-            while not lines[j].strip().startswith("} "):
-                body.append(lines[j])
-                j += 1
-            name = lines[j].strip()[2:-1]
-            body = [b for b in body if b.strip() not in ("Array:", "Maps:")]
-            out.append((kind, name, tuple(base(b, name + ".") for b in body)))
-            i = j + 1
-        else:
-            b = base(line, "")
-            out.append(("b", b[0], b[1], b[2]))
-            i += 1
+    def block(prefix, depth):
+        """members up to the closing line of the enclosing constructor; returns (members, name of the constructor)"""
+        out = []
+        while True:
+            line = lines[pos[0]]
+            st = line.strip()
+            if st.startswith("} "):
+                if len(line) - len(line.lstrip(" ")) != 4 * depth:
+                    raise ValueError("closing line %r at the wrong indentation" % line)
+                pos[0] += 1
+                return out, st[2:-1]
+            if st in ("Array:", "Maps:"):
+                pos[0] += 1
+                continue
+            if st in ("Structure {", "Sequence {", "Grid {"):
+                kind = {"Structure {": "st", "Sequence {": "sq", "Grid {": "g"}[st]
+                pos[0] += 1
+                # the members' ids need the constructor's name, which is on its closing line: read with a placeholder
+                mark = "\0%d\0" % pos[0]
+                members, name = block(prefix + mark + ".", depth + 1)
+                fix = lambda e: tuple(fix(x) for x in e) if isinstance(e, tuple) else (e.replace(mark, name) if isinstance(e, str) else e)
+                out.append((kind, prefix + name, tuple(fix(m_) for m_ in members)))
+            else:
+                out.append(("b",) + base(line, prefix))
+                pos[0] += 1
+
+    def strip(m):
+        # inside a constructor a base is (id, type, shape) - its id is dotted, never a constructor tag
+        return m[1:] if m[0] == "b" else (m[0], m[1], tuple(strip(x) for x in m[2]))
+
+    members, name = block("", 0)
+    entries = [m if m[0] == "b" else (m[0], m[1], tuple(strip(x) for x in m[2])) for m in members]
+    return name, entries, "\n".join(lines[pos[0]:])
 
 
 XDR_FMT = {"Int16": (">i", 4), "UInt16": (">I", 4), "Int32": (">i", 4), "UInt32": (">I", 4), "Float32": (">f", 4),
            "Float64": (">d", 8)}
+
+
+class WireString(str):
+    """a String value read from the data response; `.raw` = the bytes of its XDR field (length word, bytes, padding)"""
+    raw = b""
 
 
 def decode_dods_values(decl, payload):
@@ -509,6 +650,18 @@ def decode_dods_values(decl, payload):
 
     def read(ty):
         nonlocal pos
+        if ty in ("String", "Url"):
+            (n,) = struct.unpack_from(">I", payload, pos)
+            padded = n + (-n % 4)
+            raw = payload[pos:pos + 4 + padded]
+            if len(raw) != 4 + padded:
+                raise ValueError("string field runs past the end of the data response")
+            if raw[4 + n:] != b"\0" * (padded - n):
+                raise ValueError("string padding is not zero")
+            v = WireString(raw[4:4 + n].decode("ascii"))
+            v.raw = raw
+            pos += 4 + padded
+            return v
         fmt, n = XDR_FMT[ty]
         (v,) = struct.unpack_from(fmt, payload, pos)
         pos += n
@@ -518,20 +671,27 @@ def decode_dods_values(decl, payload):
         nonlocal pos
         n = 1
         if shape:
-            n1, n2 = struct.unpack_from(">II", payload, pos)
-            pos += 8
             n = int(np.prod(shape))
-            if n1 != n or n2 != n:
-                raise ValueError("array length words %d/%d differ from the declared %d" % (n1, n2, n))
+            words = 1 if ty in ("String", "Url") else 2
+            ns = struct.unpack_from(">" + "I" * words, payload, pos)
+            pos += 4 * words
+            if any(x != n for x in ns):
+                raise ValueError("array length words %r differ from the declared %d" % (ns, n))
         for _ in range(n):
             vals.append(read(ty))
+
+    def rd_members(ms):
+        for m in ms:
+            if is_nested(m):
+                rd_members(m[2])
+            else:
+                rd_base(m[1], m[2])
 
     for e in decl:
         if e[0] == "b":
             rd_base(e[2], e[3])
         elif e[0] in ("st", "g"):
-            for (_, ty, shape) in e[2]:
-                rd_base(ty, shape)
+            rd_members(e[2])
         else:
             while True:
                 marker = payload[pos:pos + 4]
@@ -545,6 +705,11 @@ def decode_dods_values(decl, payload):
     if pos != len(payload):
         raise ValueError("%d trailing bytes in the data response" % (len(payload) - pos))
     return vals
+
+
+def is_nested(m):
+    """a structure among the members of a structure (the ids of bases inside a constructor are dotted)"""
+    return m[0] == "st"
 
 
 def parse_ascii_data(decl, text):
@@ -573,15 +738,22 @@ def parse_ascii_data(decl, text):
                 raise ValueError("expected blank line after %s, got %r" % (id_, lines[i]))
             i += 1
 
+    def rd_members(name, ms):
+        nonlocal i
+        for m in ms:
+            if is_nested(m):
+                rd_members(m[1], m[2])
+            else:
+                rd_base(m[0], m[2])
+        if lines[i] != "":
+            raise ValueError("expected blank line after %s" % name)
+        i += 1
+
     for e in decl:
         if e[0] == "b":
             rd_base(e[1], e[3])
         elif e[0] in ("st", "g"):
-            for (id_, _ty, shape) in e[2]:
-                rd_base(id_, shape)
-            if lines[i] != "":
-                raise ValueError("expected blank line after %s" % e[1])
-            i += 1
+            rd_members(e[1], e[2])
         else:
             hdr = ", ".join(c[0] for c in e[2])
             if lines[i] != hdr:
@@ -598,6 +770,17 @@ def parse_ascii_data(decl, text):
     if [l for l in lines[i:] if l != ""]:
         raise ValueError("unread ASCII lines: %r" % lines[i:i + 3])
     return out
+
+
+def wire_text(vals):
+    """the decoded values in the model's notation: numbers in decimal, strings as `s` + hex of the XDR field"""
+    return " ".join("s" + v.raw.hex() if isinstance(v, WireString) else
+                    str(int(v)) if float(v).is_integer() else repr(v) for v in vals)
+
+
+def printed(v):
+    """what the ASCII response must print for a decoded value"""
+    return '"%s"' % v if isinstance(v, str) else fmt6g(v)
 
 
 def fmt6g(v):
